@@ -72,9 +72,12 @@ type fwd struct {
 	addr   string
 	cancel context.CancelFunc
 	done   chan error
-	reg    *prometheus.Registry
-	ca     *harnessCA // trusted by the proxy's transport (origins / https upstream proxy)
-	mitmCA *harnessCA
+	// returned: Run has returned (with runErr) after stop()
+	returned bool
+	runErr   error
+	reg      *prometheus.Registry
+	ca       *harnessCA // trusted by the proxy's transport (origins / https upstream proxy)
+	mitmCA   *harnessCA
 
 	mu           sync.Mutex
 	names        map[string]string // logical host:port -> real address
@@ -367,9 +370,13 @@ func startFwd(c fwdCfg) (*fwd, error) {
 }
 
 func (f *fwd) stop() {
+	if f.returned {
+		return
+	}
 	f.cancel()
 	select {
-	case <-f.done:
+	case f.runErr = <-f.done:
+		f.returned = true
 	case <-time.After(10 * time.Second):
 	}
 }
